@@ -12,7 +12,8 @@ template<typename K> constexpr int key_class() {
     else if constexpr (std::is_same_v<K, uint16_t>) return 2; else if constexpr (std::is_same_v<K, int16_t>) return 3;
     else if constexpr (std::is_same_v<K, uint32_t>) return 4; else if constexpr (std::is_same_v<K, int32_t>) return 5;
     else if constexpr (std::is_same_v<K, uint64_t>) return 6; else if constexpr (std::is_same_v<K, int64_t>) return 7;
-    else if constexpr (std::is_same_v<K, float>) return 8; else return 9;
+    else if constexpr (std::is_same_v<K, float>) return 8; else if constexpr (std::is_same_v<K, double>) return 9;
+    else if constexpr (std::is_same_v<K, long long>) return 10; else if constexpr (std::is_same_v<K, unsigned long long>) return 11; else return 12;   // 10/11: 64-bit types distinct from int64_t/uint64_t
 }
 template<typename K> constexpr K reserved() {
     if constexpr (std::numeric_limits<K>::has_infinity) return std::numeric_limits<K>::infinity(); else return std::numeric_limits<K>::max();
